@@ -13,7 +13,7 @@
 From Coq Require Import ZArith List Bool.
 Local Ltac c02_scan0 := idtac. (* separates the Require lines for the dependency scanner of lib/vv.py *)
 From VV Require Import Base.F64 Base.Values Interp.Strategy Mep.Genome Mep.Draws Mep.OpsDefs
-  Mep.OpsProofs Mep.CseProofs Mep.ClosureProofs Mep.FuelProofs.
+  Mep.OpsProofs Mep.CseProofs Mep.ClosureProofs Mep.FuelProofs Mep.ResizeProofs.
 Local Ltac c02_scan1 := idtac.
 Import ListNotations.
 
@@ -49,6 +49,24 @@ Theorem C02_mutation_wf : forall ss, wf_sset_b ss = true -> forall patch pgm i d
   best (i_gen i') = best (i_gen i) /\ i_age i' = i_age i /\ i_xt i' = i_xt i.
 Proof. exact mutation_wf. Qed.
 Print Assumptions C02_mutation_wf.
+
+(* mutation(pgm, prb) through a problem the individual was NOT created with
+   (one problem object reused with another code / patch length): the patch
+   boundary is taken from the individual's own size, the result keeps its size
+   and is well-formed for the smaller of the two patch lengths *)
+Theorem C02_mutation_wf_under_another_problem : forall ss, wf_sset_b ss = true ->
+  forall p1 p2 pgm i ds i' n ds',
+  ind_ok_b ss p1 (i_gen i) = true -> (1 <= p2)%nat ->
+  mutation ss p2 pgm i ds = Some (i', n, ds') ->
+  ind_ok_b ss (Nat.min p1 p2) (i_gen i') = true /\ rows (i_gen i') = rows (i_gen i) /\
+  cats (i_gen i') = cats (i_gen i) /\ best (i_gen i') = best (i_gen i).
+Proof. exact mutation_wf_other_problem. Qed.
+Print Assumptions C02_mutation_wf_under_another_problem.
+
+Theorem C02_wf_monotone_in_patch_length : forall ss p q g, (1 <= q <= p)%nat ->
+  ind_ok_b ss p g = true -> ind_ok_b ss q g = true.
+Proof. exact ind_ok_patch_mono. Qed.
+Print Assumptions C02_wf_monotone_in_patch_length.
 
 Theorem C02_mutation_zero_is_identity : forall ss patch i ds i' n ds',
   mutation ss patch zero_bits i ds = Some (i', n, ds') -> i' = i /\ n = 0%nat.
